@@ -13,15 +13,15 @@ Open Scope Q_scope.
 
 Definition facts_now : sym_facts :=
   mkSymFacts OrdDependency SymVarsParsData StatFloatTimesRate DynCoefTimesRate EqsByVarNames JacEqsByVars
-             LamTimeVarsPars ThirdNumericByName FallbackWarnAnyException TimeShifted.
+             LamTimeVarsPars ThirdNumericByName FallbackWarnAnyException TimeShifted VarSymPlain.
 (** the snapshot before fix fd76819 (derived values converted in declaration order) *)
 Definition facts_old_order : sym_facts :=
   mkSymFacts OrdDeclaration SymVarsParsData StatFloatTimesRate DynCoefTimesRate EqsByVarNames JacEqsByVars
-             LamTimeVarsPars ThirdNumericByName FallbackWarnAnyException TimeShifted.
+             LamTimeVarsPars ThirdNumericByName FallbackWarnAnyException TimeShifted VarSymPlain.
 (** the snapshot before fix 114d3fe (closure passes model._parameters.values()) *)
 Definition facts_old_third : sym_facts :=
   mkSymFacts OrdDependency SymVarsParsData StatFloatTimesRate DynCoefTimesRate EqsByVarNames JacEqsByVars
-             LamTimeVarsPars ThirdParamRecords FallbackWarnAnyException TimeShifted.
+             LamTimeVarsPars ThirdParamRecords FallbackWarnAnyException TimeShifted VarSymPlain.
 
 (** ---- w1 ------------------------------------------------------------------------------------ *)
 (** variables 1,2; parameters 3,4; derived 6 = twice(5) declared BEFORE 5 = proportional(3,4);
